@@ -86,7 +86,7 @@ def run_shard(shard: dict, ctx, res, only=None) -> None:
             f"header.nsamples={fil.header.nsamples} expected {N}",
         )
         return
-    cases = [only] if only is not None else inner_cases(N)
+    cases = [only] if (only is not None and len(only) == 4) else [] if only is not None else inner_cases(N)
     for inner in cases:
         if inner is None:
             continue
@@ -94,9 +94,11 @@ def run_shard(shard: dict, ctx, res, only=None) -> None:
         res.evaluations += 1
         _one(fil, X, C, N, bounds_, shard, g, start, ns, s, res)
     # the custom allocator argument: the blocks must not depend on which buffer type backs them
-    if only is None:
+    if only is None or len(only) == 5:
         allocs = {"numpy": lambda n: np.zeros(n, dtype=np.uint8), "memoryview": lambda n: memoryview(bytearray(n))}
         for g, start, ns, s in [(2, 0, None, 1), (3, 1, N - 1 if N > 1 else None, 0), (N + 1, 0, None, 0)]:
+            if only is not None and [g, start, ns, s] != only[:4]:
+                continue
             if start >= N or (ns is not None and ns < 1):
                 continue
             n_eff = (N - start) if ns is None else ns
@@ -104,7 +106,9 @@ def run_shard(shard: dict, ctx, res, only=None) -> None:
                 continue
             for aname, alloc in allocs.items():
                 res.evaluations += 1
-                case = {"shard": shard, "inner": [g, start, ns, s]}
+                if only is not None and only[4] != aname:
+                    continue
+                case = {"shard": shard, "inner": [g, start, ns, s, aname]}
                 try:
                     pieces = []
                     for k, (nr, ii, data) in enumerate(fil.read_plan(gulp=g, start=start, nsamps=ns, skipback=s, description="vf", quiet=True, allocator=alloc)):
